@@ -894,13 +894,16 @@ func init() {
 	// ------------------------------------------------------------------ C08
 	register(&Prop{
 		ID: "C08", Level: "exploration", QuickS: 25, ThoroughS: 420,
-		Rule:       "seeded extended-protocol histories over statements with 0-5 declared parameter types and typed columns: Bind messages with NULL / empty / NUL-containing / multi-KiB values, parameter-format lists of length 0, 1 and n, result-format lists of length 0, 1 and n, and 0-3 other messages (Describe, Parse of other names with long texts, simple queries, stray CopyData) between Bind and Execute; the statement function records count, Value(), Format() and Scan(declared oid) of every parameter; compared with the reference model and the independent codecs, including the RowDescription/DataRow formats of the portal and the ParameterDescription of the statement; 1 in 40 cases adds a $65535 statement bound with 65535/65534/32768 parameters under a 1 MiB limit; the scan op asks every parameter again with another OID and compares with a fresh parameter holding the same bytes; non-trivial = a statement function ran with at least one parameter; distinct = distinct case content hashes",
+		Rule:       "seeded extended-protocol histories over statements with 0-5 declared parameter types and typed columns: Bind messages with NULL / empty / NUL-containing / multi-KiB values, parameter-format lists of length 0, 1 and n, result-format lists of length 0, 1 and n, and 0-3 other messages (Describe, Parse of other names with long texts, simple queries, stray CopyData) between Bind and Execute; the statement function records count, Value(), Format() and Scan(declared oid) of every parameter; compared with the reference model and the independent codecs, including the RowDescription/DataRow formats of the portal and the ParameterDescription of the statement; 1 in 40 cases adds a $65535 statement bound with 65535/65534/32768 parameters under a 1 MiB limit; 1 case in 50 is a decoy (an int4-only session on a server whose ExtendTypes option re-registers text, varchar, timestamp and numeric: the cases that follow in the same process must not notice); the scan op asks every parameter again with another OID and compares with a fresh parameter holding the same bytes; non-trivial = a statement function ran with at least one parameter; distinct = distinct case content hashes",
 		Components: e1Components, Assumptions: commonAssumptions,
 		Gen: func(r *Rand, tier string) *Case {
 			if r.Chance(1, 10) {
 				// E2 share: neighbouring connections bind and scan values of the same
 				// OIDs concurrently
 				return genConcurrent(r, r.Range(2, 3), histOpts{extended: true, params: true, binary: true, between: true, maxUnits: 4}, 16384)
+			}
+			if r.Chance(1, 50) {
+				return genExtendDecoy(r)
 			}
 			c := &Case{Server: ServerCfg{Limit: r.PickInt(4096, 16384, 65536, 65536)}}
 			many := r.Chance(1, 40)
@@ -932,7 +935,7 @@ func init() {
 	// ------------------------------------------------------------------ C09
 	register(&Prop{
 		ID: "C09", Level: "exploration", QuickS: 25, ThoroughS: 420,
-		Rule:       "seeded sessions whose statements write rows over bool/int2/int4/int8/oid/float4/float8/text/varchar/bytea/uuid/date/timestamp/timestamptz/name/bpchar/json/jsonb columns with boundary and random values (min/max, +-0, NaN, +-Inf, empty and multi-byte strings, empty and NUL-containing bytea, zero UUID, text/bytea values of 4090-70000 bytes) in the Go representations a handler would use (native values, pointers, pgtype structs, and Go strings holding the text form of int4/int8/uuid values, which only the text format can encode), text format (simple protocol) and per-column text/binary result formats (extended protocol), SQL NULL written as untyped nil, typed nil pointer or invalid pgtype value in any position; a sixth of the servers announce another server_version (option or configured parameter: 7.4 ... 16devel); the same OID is encoded from different Go types in varying order within a connection; every DataRow is decoded by the independent codecs; variant: rows of 17-70 KB on their way out when the session's middleware-derived context ends (fault write-cancel): the wire stays a sequence of complete messages and every DataRow that arrives carries a value that was written; non-trivial = at least one DataRow was produced and decoded; distinct = distinct case content hashes",
+		Rule:       "seeded sessions whose statements write rows over bool/int2/int4/int8/oid/float4/float8/text/varchar/bytea/uuid/date/timestamp/timestamptz/name/bpchar/json/jsonb columns with boundary and random values (min/max, +-0, NaN, +-Inf, empty and multi-byte strings, empty and NUL-containing bytea, zero UUID, text/bytea values of 4090-70000 bytes) in the Go representations a handler would use (native values, pointers, pgtype structs, and Go strings holding the text form of int4/int8/uuid values, which only the text format can encode), text format (simple protocol) and per-column text/binary result formats (extended protocol), SQL NULL written as untyped nil, typed nil pointer or invalid pgtype value in any position; 1 case in 50 is a decoy: a short int4-only session on a server whose ExtendTypes option re-registers text, varchar, timestamp and numeric with other codecs - the cases that follow it in the same worker process must not notice (state that outlives a Server is replayed through the prelude mechanism); a sixth of the servers announce another server_version (option or configured parameter: 7.4 ... 16devel); the same OID is encoded from different Go types in varying order within a connection; every DataRow is decoded by the independent codecs; variant: rows of 17-70 KB on their way out when the session's middleware-derived context ends (fault write-cancel): the wire stays a sequence of complete messages and every DataRow that arrives carries a value that was written; non-trivial = at least one DataRow was produced and decoded; distinct = distinct case content hashes",
 		Components: e1Components, Assumptions: commonAssumptions,
 		Gen: func(r *Rand, tier string) *Case {
 			if r.Chance(1, 10) {
@@ -942,6 +945,9 @@ func init() {
 			}
 			if r.Chance(1, 40) {
 				return genC09BigRowCancel(r)
+			}
+			if r.Chance(1, 50) {
+				return genExtendDecoy(r)
 			}
 			c := &Case{Server: ServerCfg{Limit: smallLimit(r)}}
 			if r.Chance(1, 6) {
@@ -1026,7 +1032,7 @@ func init() {
 			// whatever the interleaving
 			return genConcurrent(r, r.Range(2, 4), histOpts{extended: true, closes: true, params: true, binary: true, unknownNames: true, maxUnits: units(tier, 6)}, 4096)
 		},
-		Rule:        "seeded histories of Parse/Bind/Describe/Execute/Close over a pool of 3 statement and 3 portal names (incl. the unnamed ones); every Parse carries a unique query text, parameter list and column set so that each later Describe/Execute is attributable to exactly one definition; judged against the per-connection two-map namespace model (statement current at Bind time, Bind's parameters and result formats, Close removes); E2 variant: 2-3 connections run such histories over the same names under seeded schedules and each must equal its own model run; a sixth of the histories contain a churn unit (20-260 Parse/Close cycles of one name, distinct live names, or Bind/Close of portals); variant: the session context ends while a portal is executed and the portal is used again (nobody closed it); the -race shard (3 workers) runs the concurrent sets; non-trivial = a name was re-used (re-parsed / re-bound / closed) before a later use; distinct = distinct case content hashes",
+		Rule:        "seeded histories of Parse/Bind/Describe/Execute/Close over a pool of 3 (two fifths of the histories: 6 or 9, with longer histories) statement and portal names (incl. the unnamed ones); every Parse carries a unique query text, parameter list and column set so that each later Describe/Execute is attributable to exactly one definition; judged against the per-connection two-map namespace model (statement current at Bind time, Bind's parameters and result formats, Close removes); E2 variant: 2-3 connections run such histories over the same names under seeded schedules and each must equal its own model run; a quarter of the histories contain churn units (20-260 Parse/Close cycles of one name, distinct live names, Bind/Close of portals; or a table under stress: 3-9 portals or statements alive at once, then rounds of close / define again / close / use); variant: the session context ends while a portal is executed and the portal is used again (nobody closed it); the -race shard (3 workers) runs the concurrent sets; non-trivial = a name was re-used (re-parsed / re-bound / closed) before a later use; distinct = distinct case content hashes",
 		Components:  append(append([]string{}, e1Components...), "E2 share: seeded scheduler (harness/kernel.go) decides every interleaving of the connection goroutines at transport operations, callbacks and spliced schedule points"),
 		Assumptions: commonAssumptions,
 		Gen: func(r *Rand, tier string) *Case {
@@ -1041,7 +1047,7 @@ func init() {
 			if r.Chance(1, 5) {
 				c.Server.UserCaches = true
 			}
-			genHistory(r, c, histOpts{simple: r.Chance(1, 3), churn: r.Chance(1, 6), extended: true, closes: true, params: true, binary: true, unknownNames: true, errs: r.Bool(), maxUnits: units(tier, 10)})
+			genHistory(r, c, histOpts{simple: r.Chance(1, 3), churn: r.Chance(1, 4), extended: true, closes: true, params: true, binary: true, unknownNames: true, errs: r.Bool(), maxUnits: units(tier, 10) + 6*r.Intn(2), names: r.PickInt(0, 0, 0, 6, 9)})
 			if r.Chance(1, 4) {
 				// a second connection, served afterwards on the same server, refers to
 				// the names the first one defined without defining them itself: they
